@@ -18,8 +18,8 @@ Allowed(r) ==
   /\ (Admitted(r) => WellFormed(r.toks) /\ SassFree(r.toks) /\ Stable(r, r.ascss) /\ Stable(r, r.asscss))
 
 Init == l = 1
-Observe == l <= Len(Rec) /\ Allowed(Rec[l]) /\ l' = l + 1
-Reject  == /\ l <= Len(Rec) /\ ~Allowed(Rec[l])
+Observe == l <= Len(Rec) /\ (Allowed(Rec[l]) = TRUE) /\ l' = l + 1
+Reject  == /\ l <= Len(Rec) /\ (Allowed(Rec[l]) = FALSE)
            /\ PrintT(<<"REJECT", ToJson([id |-> Rec[l].id, utf8 |-> Rec[l].utf8, wellformed |-> WellFormed(Rec[l].toks),
                                           sassfree |-> SassFree(Rec[l].toks), charset |-> CharsetOk(Rec[l]),
                                           admitted |-> Admitted(Rec[l]),
